@@ -224,3 +224,86 @@ func tableUpdateWritesVersion(r *core.Run, rule string) {
 	r.Check(got["now"], rule, fn.Name+" access time", site(r, f.Pos()),
 		"the access time is refreshed", "the access time is not refreshed by the update")
 }
+
+// derivesFromClamp: v is a value that was clamped from below by a positive constant — a phi
+// with such a constant among its edges, possibly inside a helper of the repository whose
+// result it is, possibly converted or scaled afterwards.
+func derivesFromClamp(p *core.Prog, v ssa.Value, depth int) bool {
+	if depth > 6 {
+		return false
+	}
+	switch x := v.(type) {
+	case *ssa.Phi:
+		for _, e := range x.Edges {
+			if k, ok := e.(*ssa.Const); ok && k.Value != nil && k.Int64() > 0 {
+				return true
+			}
+		}
+		for _, e := range x.Edges {
+			if derivesFromClamp(p, e, depth+1) {
+				return true
+			}
+		}
+	case *ssa.Convert:
+		return derivesFromClamp(p, x.X, depth+1)
+	case *ssa.ChangeType:
+		return derivesFromClamp(p, x.X, depth+1)
+	case *ssa.BinOp:
+		return derivesFromClamp(p, x.X, depth+1) || derivesFromClamp(p, x.Y, depth+1)
+	case *ssa.Call:
+		if o := core.CalleeObj(x); o != nil {
+			if h := p.ByObj[o]; h != nil && h.SSA != nil {
+				for _, ret := range core.Returns(h.SSA) {
+					if len(ret.Results) > 0 && derivesFromClamp(p, ret.Results[0], depth+1) {
+						return true
+					}
+				}
+			}
+		}
+	}
+	return false
+}
+
+// c09SubMillisecondKept: relative expiries travel between members (and from the cluster
+// client) in whole milliseconds, and zero on the wire means "no expiry". A positive
+// duration below one millisecond must therefore be rounded up, not truncated: otherwise a
+// Put with PX, an Expire or a Lock timeout that expires within a millisecond on the owner's
+// own path is stored for ever when the request was forwarded.
+func c09SubMillisecondKept(r *core.Run) {
+	const rule = "sub-millisecond-expiry-kept"
+	p := r.P
+	n := counter{}
+	sites := 0
+	for _, fn := range p.FuncList {
+		if fn.SSA == nil || skipPkg(fn) || core.RelPkg(fn.Pkg.PkgPath) == "internal/protocol" {
+			continue
+		}
+		for _, f := range core.AllSSA(fn.SSA) {
+			core.Instrs(f, func(in ssa.Instruction) {
+				c, ok := in.(ssa.CallInstruction)
+				if !ok {
+					return
+				}
+				o := core.CalleeObj(c)
+				if o == nil || o.Pkg() == nil || core.RelPkg(o.Pkg().Path()) != "internal/protocol" {
+					return
+				}
+				args := c.Common().Args
+				var arg ssa.Value
+				switch o.Name() {
+				case "SetPX":
+					arg = args[len(args)-1]
+				case "NewPExpire":
+					arg = args[len(args)-1]
+				default:
+					return
+				}
+				sites++
+				r.Check(derivesFromClamp(p, arg, 0), rule, n.next(fn.Name+" "+o.Name()), site(r, instrPos(in)),
+					"the relative expiry put on the wire is clamped from below (a positive duration never becomes 0 ms)",
+					"the relative expiry handed to "+o.Name()+" is a truncated duration (whole milliseconds) without a lower bound: a positive expiry below one millisecond becomes 0, which means 'no expiry' on the wire — the key (or lock) is stored for ever when the request is forwarded, while it expires on the owner's own path")
+			})
+		}
+	}
+	r.Floor(rule, sites, 3)
+}
